@@ -1,0 +1,18 @@
+//go:build verif
+
+// Contracts for package cmap, checked by /verif/govc (comment-only; see /verif/DESIGN.md).
+package cmap
+
+// A concurrent map touches only its own (mutex-guarded) Go map (trusted frames).
+//@ trusted func (cm *CMap) Get(key string) (r interface{})
+//@   requires cm != nil
+//@   modifies nothing
+//@ trusted func (cm *CMap) Set(key string, value interface{})
+//@   requires cm != nil
+//@   modifies nothing
+//@ trusted func (cm *CMap) Has(key string) (r bool)
+//@   requires cm != nil
+//@   modifies nothing
+//@ trusted func (cm *CMap) Delete(key string)
+//@   requires cm != nil
+//@   modifies nothing
